@@ -29,6 +29,7 @@ use octo_squirrel::codec::WebSocketFramed;
 use octo_squirrel::config::ServerConfig;
 use octo_squirrel::config::WebSocketConfig;
 use octo_squirrel::protocol::address::Address;
+use octo_squirrel::protocol::socks5::address;
 use octo_squirrel::protocol::socks5::codec::Socks5UdpCodec;
 use octo_squirrel::relay;
 use octo_squirrel::relay::End;
@@ -56,6 +57,9 @@ use tokio_websockets::ClientBuilder;
 
 use super::config::SslConfig;
 use super::handshake;
+
+/// the largest payload of one udp datagram (65535 - 8 bytes udp header - 20 bytes ip header)
+const MAX_UDP_PAYLOAD: usize = 65507;
 
 pub async fn transfer_tcp<NewContext, Context, NewCodec, Codec>(
     listener: TcpListener,
@@ -208,6 +212,14 @@ where
             // client->local|mpsc
             Some((item, key)) = client_local_rx.recv() => {
                 client_server_cache.get(&key);
+                // RSV, FRAG, address, payload: an answer that does not fit one udp datagram can never be sent, and left in
+                // the write buffer of the framed socket it would make every later send fail as well
+                let (datagram, _): &(DatagramPacket, SocketAddr) = &item;
+                let len = 3 + address::length(&datagram.1) + datagram.0.len();
+                if len > MAX_UDP_PAYLOAD {
+                    error!("[udp] inbound msg too large, dropping it; len={}", len);
+                    continue;
+                }
                 client_local.send(item).await.unwrap_or_else(|e| error!("[udp] failed to send inbound msg; error={}", e));
             }
             // local->client|inbound
